@@ -511,6 +511,11 @@ def pre_family():
         ('and', ('and', ('EX', Q), ('AX', Q)), ('and', ('and', ('EF', Q), ('AF', Q)), ('and', ('and', ('EG', Q), ('AG', Q)), ('not', Q)))),
         ('and', B('bind', ('AX', V())), ('and', B('exists', ('AX', V())), B('forall', ('AX', V())))),
         ('and', ('and', P, Q), ('and', ('and', W0, W1), ('and', ('true',), ('false',)))),
+        # the same quantified sub-formula under two different domain labels / with and without a domain, per quantifier kind
+        ('and', B('exists', J(('AX', V())), 'L0'), ('AX', B('exists', J(('AX', V())), 'L1'))),
+        ('and', B('exists', J(('AX', V())), 'L0'), ('AX', B('exists', J(('AX', V()))))),
+        ('and', B('forall', ('AX', V()), 'L0'), ('AX', B('forall', ('AX', V()), 'L1'))),
+        ('and', B('bind', ('EF', V()), 'L0'), ('AX', B('bind', ('EF', V())))),
     ]
 
 class _First:
@@ -1014,7 +1019,7 @@ def _labels_of(t):
     for c in t[1:]: out += _labels_of(c)
     return out
 
-C14_EXT = ['\\forall {x} in %d%: AX {x}', '\\exists {x} in %d%: @{x}: v0', '\\bind {x} in %d%: {x}', 'v0 & (\\forall {x} in %d%: {x})', '(!{a}: AX {a}) & (V{b}: {b}) & (3{c}: @{c}: v0)', '!{a}: (3{b}: {b}) | (3{c}: !{e}: {c} & {e})', '%w%', '!{x} in %d%: AX {x}', '3{x} in %d%: @{x}: (%w% & EF {x})', 'V{x}: !{y}: 3{z}: ({x} | {y} | {z} | %w%)', 'v0 & ~v1', '!{x}: !{y} in %d%: ({x} & {y})', 'EX %d%', '!{x} in %w%: %d%']
+C14_EXT = ['\\forall {x} in %d%: AX {x}', '\\exists {x} in %d%: @{x}: v0', '\\bind {x} in %d%: {x}', 'v0 & (\\forall {x} in %d%: {x})', '(!{a}: AX {a}) & (V{b}: {b}) & (3{c}: @{c}: v0)', '!{a}: (3{b}: {b}) | (3{c}: !{e}: {c} & {e})', '%w%', '!{x} in %d%: AX {x}', '3{x} in %d%: @{x}: (%w% & EF {x})', 'V{x}: !{y}: 3{z}: ({x} | {y} | {z} | %w%)', 'v0 & ~v1', '!{x}: !{y} in %d%: ({x} & {y})', 'EX %d%', '!{x} in %w%: %d%', '3{x} in %d%: (EX %w% & AX EX %w%)', '!{x} in %d%: ((AX %w%) | (AX %w%))']
 C14_TEMPLATES = ['(!{a}: AX {a}) | (3{b}: @{b}: EF {b})', '!{x}: AG EF {x}', '3{x} in %d%: @{x}: (v0 & AX {x})', '(v0 EU ~v1) <=> %w%', 'V{a}: !{b}: ({a} | AF {b})', '\\bind {x}: EX (%w% ^ {x})', 'AG (v0 => EF true)']
 
 def sc_c14(ctx, p):
